@@ -252,6 +252,24 @@ def run(ck):
                       '(run-time properties); memory safety of the parser beyond C01/C07 clauses')
     for v, prog in ck.programs(thorough_variants=('B',)):
         c10_1(ck, prog)
+        # an invalid message must be recognised as such: mandatory header fields (shared with C01.4)
+        from rules.C01 import c01_4
+        from rules.C13 import c13_1d
+        save = ck.rule
+        r1b = ck.rule('C10.1b', 'messages lacking a mandatory header field are rejected by the loader (shared with '
+                      'C01.4): otherwise they reach code that asserts the field exists', 'TAB', floor=25)
+        ck.rule = lambda *a, **k: r1b
+        try:
+            c01_4(ck, prog)
+        finally:
+            ck.rule = save
+        r5b = ck.rule('C10.5b', 'every change of the number of unauthenticated connections re-evaluates the accept '
+                      'gate (shared with C13.1d): otherwise the bus stops accepting connections', 'PAIR', floor=3)
+        ck.rule = lambda *a, **k: r5b
+        try:
+            c13_1d(ck, prog)
+        finally:
+            ck.rule = save
         c10_2(ck, prog)
         c10_3(ck, prog)
         c10_4(ck, prog)
